@@ -310,11 +310,28 @@ def r16_9(ctx: Ctx, rule: str = "R16.9") -> None:
         enc = [c for c in q.calls(f) if attr_tail(c) == "encode" and c.args and isinstance(c.args[0], ast.Constant) and str(c.args[0].value).lower().replace("_", "-") == "utf-16le"]
         guarded = any(isinstance(t, ast.Try) and any(e in list(ast.walk(st)) for st in t.body for e in enc) and
                       any(h.type is not None and "Unicode" in norm(h.type) for h in t.handlers) for t in walk(f.node) if isinstance(t, ast.Try))
+        # ... and the handler REFUSES (raises, or returns False): a handler that passes on lets the name through
+        guarded = guarded and any(isinstance(t, ast.Try) and any(e in list(ast.walk(st)) for st in t.body for e in enc) and
+                                  any(h.type is not None and "Unicode" in norm(h.type) and h.body and (isinstance(h.body[-1], ast.Raise) or (
+                                      isinstance(h.body[-1], ast.Return) and isinstance(h.body[-1].value, ast.Constant) and h.body[-1].value.value is False)) for h in t.handlers)
+                                  for t in walk(f.node) if isinstance(t, ast.Try))
         ctx.check(bool(enc) and guarded, rule, f, enc[0] if enc else f.node, f"{f.name}: names that cannot be stored as UTF-16 are refused at once",
                   f"{f.qname} accepts a name with a lone surrogate (os.listdir gives one for a file name that is not valid UTF-8): the write call succeeds, close() raises "
                   "UnicodeEncodeError while writing the Names record, the file keeps its placeholder header and every member of the session is lost",
                   construct=f"{f.name} unencodable name")
         dots = [lp for lp in walk(f.node) if isinstance(lp, ast.While) and any(isinstance(x, ast.Constant) and x.value == "./" for x in ast.walk(lp.test))]
+        # every prefix-stripping loop removes exactly the prefix it tests for (`while p.startswith(X): p = p[len(X):]`): a shorter cut never ends,
+        # a longer one eats the first characters of the name
+        for lp in [lp for lp in walk(f.node) if isinstance(lp, ast.While) and isinstance(lp.test, ast.Call) and attr_tail(lp.test) == "startswith" and lp.test.args
+                   and isinstance(lp.test.args[0], ast.Constant) and isinstance(lp.test.args[0].value, str)]:
+            pre = lp.test.args[0].value
+            var = norm(lp.test.func.value)
+            cuts = [n for n in ast.walk(lp) if isinstance(n, ast.Assign) and norm(n.targets[0]) == var]
+            ok = bool(cuts) and all(any(isinstance(x, ast.Subscript) and norm(x.value) == var and isinstance(x.slice, ast.Slice) and isinstance(x.slice.lower, ast.Constant)
+                                        and x.slice.lower.value == len(pre) and x.slice.upper is None for x in ast.walk(n.value)) for n in cuts)
+            ctx.check(ok, rule, f, lp, f"{f.name}: the loop that strips {pre!r} cuts exactly {len(pre)} characters",
+                      f"{f.qname}: `while {var}.startswith({pre!r})` does not remove exactly that prefix ({len(pre)} characters) in its body: a name that starts with {pre!r} makes the "
+                      "call hang, or loses the first characters of its first component", construct=f"{f.name} strip loop {pre}")
         ctx.check(bool(dots), rule, f, f.node, f"{f.name}: leading './' is dropped before the drive-prefix test",
                   f"{f.qname} tests the drive prefix on the raw text: './c:/x.txt' passes and is stored as 'c:/x.txt' once pathlib has dropped the './'",
                   construct=f"{f.name} dot-slash before drive test")
@@ -337,8 +354,12 @@ def r16_10(ctx: Ctx) -> None:
     for r in rets:
         ok = False
         for cd, pol in q.facts_at(f, r):
-            if isinstance(cd, ast.Call) and attr_tail(cd) == "check_archive_path" and pol:
-                ok = True
+            if isinstance(cd, ast.Call) and attr_tail(cd) == "check_archive_path" and pol and cd.args:
+                # ... asked about THIS name: the argument is the returned variable, or `<it> or "."` (the empty name stands for the root)
+                a0 = cd.args[0]
+                same = norm(a0) == norm(r.value) or (isinstance(a0, ast.BoolOp) and isinstance(a0.op, ast.Or) and len(a0.values) == 2 and norm(a0.values[0]) == norm(r.value)
+                                                     and isinstance(a0.values[1], ast.Constant))
+                ok = ok or same
         ctx.check(ok, "R16.10", f, r, "a name write() stores has passed check_archive_path (the gate of writestr/writef)",
                   "_sanitize_archive_arcname returns a name that check_archive_path was never asked about: '..' components survive (`write('../data/tree')`, CLI `c arc ../data/tree`), "
                   "the archive lists '../data/tree/...', writestr() refuses the same name and extraction of the whole archive fails with 'Specified path is bad'",
